@@ -27,6 +27,8 @@ pub fn err_class(e: &IggyError) -> String {
 pub struct TraceWriter {
     out: std::io::BufWriter<std::fs::File>,
     pub lines: u64,
+    /// integers beyond +-clamp are written as +-(clamp + 1), see `emit`
+    pub clamp: u64,
 }
 
 impl TraceWriter {
@@ -35,6 +37,7 @@ impl TraceWriter {
         TraceWriter {
             out: std::io::BufWriter::with_capacity(1 << 20, f),
             lines: 0,
+            clamp: 2_000_000_000,
         }
     }
     pub fn emit(&mut self, v: &Value) {
@@ -43,23 +46,23 @@ impl TraceWriter {
             self.out.flush().expect("flush trace");
         }
         // TLC's integers are 32 bits: a wild figure (an underflowed counter of the code under test) is data, not a reason for the
-        // validation to fail - it is clamped to +-2_000_000_001, which no legitimate observation reaches
-        fn clamp(v: &Value) -> Value {
+        // validation to fail - it is clamped (the lenses whose specifications ADD observed figures use a lower limit, so that a few wild values still add up within 32 bits)
+        fn clamp(v: &Value, lim: u64) -> Value {
             match v {
                 Value::Number(n) => {
                     if let Some(u) = n.as_u64() {
-                        if u > 2_000_000_000 { return serde_json::json!(2_000_000_001u64); }
+                        if u > lim { return serde_json::json!(lim + 1); }
                     } else if let Some(i) = n.as_i64() {
-                        if i < -2_000_000_000 { return serde_json::json!(-2_000_000_001i64); }
+                        if i < -(lim as i64) { return serde_json::json!(-(lim as i64) - 1); }
                     }
                     v.clone()
                 }
-                Value::Array(a) => Value::Array(a.iter().map(clamp).collect()),
-                Value::Object(o) => Value::Object(o.iter().map(|(k, x)| (k.clone(), clamp(x))).collect()),
+                Value::Array(a) => Value::Array(a.iter().map(|x| clamp(x, lim)).collect()),
+                Value::Object(o) => Value::Object(o.iter().map(|(k, x)| (k.clone(), clamp(x, lim))).collect()),
                 _ => v.clone(),
             }
         }
-        let v = &clamp(v);
+        let v = &clamp(v, self.clamp);
         serde_json::to_writer(&mut self.out, v).expect("write trace");
         self.out.write_all(b"\n").expect("write trace");
         self.lines += 1;
